@@ -572,6 +572,29 @@ def eval_gen(case):
                     lines.pop()
                 if g is not None:
                     stats.append("grid_ts_parsed" if gstart is not None else "grid_ts_none")
+                # independent alignment oracle: the grid situation used for scenario step t is the series entry whose
+                # timestamp is the time of step t (series that begin at or before the scenario start and reach into it)
+                if g is not None and gstart is not None and cap.final is not None \
+                        and "original_residual_load" in cap.final and not bad:
+                    off = (start.replace(tzinfo=None) - gstart) / interval
+                    if off == int(off) and 0 <= off < len(cells_r):
+                        off = int(off)
+                        orr, occ = cap.final["original_residual_load"], cap.final["original_curtailment"]
+                        for t in range(n):
+                            i = off + t
+                            want_r = cells_r[i] if i < len(cells_r) else 0.0
+                            want_c = abs(cells_c[i]) if i < len(cells_c) and cells_c[i] is not None else \
+                                (0.0 if i >= len(cells_c) else None)
+                            got_r = orr[t] if t < len(orr) else None
+                            got_c = occ[t] if t < len(occ) else None
+                            if (want_r is not None and (got_r is None or abs(got_r - want_r) > 1e-9)) or \
+                                    (want_c is not None and (got_c is None or abs(abs(got_c) - want_c) > 1e-9)):
+                                viol_grid = ("grid_alignment", "C13:grid_series_misaligned",
+                                             "step %d (series row %d): used residual %r curtailment %r, series has %r / %r"
+                                             % (t, i, got_r, got_c, want_r, want_c))
+                                viol.append(viol_grid)
+                                break
+                        stats.append("grid_alignment_checked")
 
         if e is not None:
             stats.append("gen_error_" + type(e).__name__)
